@@ -121,7 +121,13 @@ func coqSched(evs []rEv) string {
 			run = nil
 		case "z":
 			flush()
-			parts = append(parts, "[Zero]")
+			if n := len(parts); n > 0 && strings.HasPrefix(parts[n-1], "zeros ") {
+				var k int
+				fmt.Sscanf(parts[n-1], "zeros %d", &k)
+				parts[n-1] = fmt.Sprintf("zeros %d", k+1)
+			} else {
+				parts = append(parts, "zeros 1")
+			}
 		case "E":
 			flush()
 			parts = append(parts, "[Eof]")
@@ -143,8 +149,27 @@ func schedHas(evs []rEv, k string) bool {
 	return false
 }
 
+// maxZeroRun: byteReader / teeReader give up with io.ErrNoProgress after 100 consecutive (0, nil) reads.
+const maxZeroRun = 100
+
+// longZeroRun: the script has at least maxZeroRun consecutive (0, nil) reads.
+func longZeroRun(evs []rEv) bool {
+	run := 0
+	for _, e := range evs {
+		if e.K == "z" {
+			run++
+			if run >= maxZeroRun {
+				return true
+			}
+		} else {
+			run = 0
+		}
+	}
+	return false
+}
+
 // genSchedule splits stream into a legal script.  class: 0 clean, 1 data+EOF at the end,
-// 2 interspersed (0,nil), 3 both.
+// 2 interspersed (0,nil), 3 both, 4 like 3 with one run of 99..101 consecutive (0,nil) reads.
 func (r *Rng) genSchedule(stream []byte, class int) []rEv {
 	var evs []rEv
 	i := 0
@@ -156,16 +181,29 @@ func (r *Rng) genSchedule(stream []byte, class int) []rEv {
 		if i+n > len(stream) {
 			n = len(stream) - i
 		}
-		if (class == 2 || class == 3) && r.chance(0.25) {
-			evs = append(evs, rEv{K: "z"})
+		if class >= 2 && r.chance(0.25) {
+			for k := 1 + r.Intn(2); k > 0; k-- {
+				evs = append(evs, rEv{K: "z"})
+			}
 		}
 		evs = append(evs, rEv{K: "d", D: append([]byte{}, stream[i:i+n]...)})
 		i += n
 	}
-	if (class == 1 || class == 3) && len(evs) > 0 && evs[len(evs)-1].K == "d" {
+	if (class == 1 || class >= 3) && len(evs) > 0 && evs[len(evs)-1].K == "d" && r.chance(0.8) {
 		evs[len(evs)-1].K = "e"
-	} else if (class == 2 || class == 3) && r.chance(0.3) {
+	} else if class >= 2 && r.chance(0.3) {
 		evs = append(evs, rEv{K: "z"})
+	}
+	if class == 4 {
+		at := r.Intn(len(evs) + 1)
+		for at > 0 && evs[at-1].K == "e" {
+			at--
+		}
+		run := make([]rEv, maxZeroRun-1+r.Intn(3))
+		for i := range run {
+			run[i] = rEv{K: "z"}
+		}
+		evs = append(evs[:at], append(run, evs[at:]...)...)
 	}
 	for k := r.Intn(3); k > 0; k-- {
 		evs = append(evs, rEv{K: "E"})
@@ -318,60 +356,94 @@ func directXml(seq bool, x []byte) (Outcome, int) {
 	return o, len(x) - br.Len()
 }
 
-// seenFrom: the bytes a decoder behind a freshly made one-byte adaptor is given from unit event
-// `from` on, up to the first error event.  This only chooses which strings the table is asked
-// about; every table entry is a statement about the decoder on a bytes.Reader and is true
-// whatever strings are chosen (a wrong choice shows up as a missing entry = mismatch).
-func seenFrom(us []uEv, from int) []byte {
+// seenFrom: the bytes a decoder behind a freshly made adaptor is given from unit event `from` on, and how the
+// supply ends (io.EOF or, after maxZeroRun consecutive (0,nil) reads, io.ErrNoProgress).  This only chooses which
+// strings the table is asked about; every table entry is a statement about the decoder over an io.ByteReader
+// that is not mxj's, and is true whatever strings are chosen (a wrong choice shows up as a missing entry = mismatch).
+func seenFrom(us []uEv, from int) ([]byte, error) {
 	var seen []byte
-	var stale byte
+	zeros := 0
 	for _, u := range us[from:] {
 		switch u.k {
-		case 'd':
-			stale = u.b
+		case 'd', 'e':
+			zeros = 0
 			seen = append(seen, u.b)
 		case 'z':
-			seen = append(seen, stale)
+			zeros++
+			if zeros >= maxZeroRun {
+				return seen, io.ErrNoProgress
+			}
 		default:
-			return seen
+			return seen, io.EOF
 		}
 	}
-	return seen
+	return seen, io.EOF
+}
+
+// endReader is an io.ByteReader of its own (NewMapXmlReader hands an io.ByteReader to xml.NewDecoder unchanged):
+// the bytes, then the error `end` forever.
+type endReader struct {
+	data  []byte
+	i     int
+	end   error
+	atEnd bool
+}
+
+func (e *endReader) ReadByte() (byte, error) {
+	if e.i < len(e.data) {
+		e.i++
+		return e.data[e.i-1], nil
+	}
+	e.atEnd = true
+	return 0, e.end
+}
+func (e *endReader) Read(p []byte) (int, error) {
+	if len(p) == 0 {
+		return 0, nil
+	}
+	b, err := e.ReadByte()
+	if err != nil {
+		return 0, err
+	}
+	p[0] = b
+	return 1, nil
 }
 
 type dentry struct {
-	done bool
+	kind string // DDone DEof DNoProg
 	x    []byte
 	o    Outcome
 }
 
-func xmlEntry(seq bool, seen []byte) dentry {
-	o, n := directXml(seq, seen)
-	if n < len(seen) {
-		return dentry{true, seen[:n], o}
+func xmlEntry(seq bool, seen []byte, end error) dentry {
+	er := &endReader{data: seen, end: end}
+	o := protect(func() Outcome {
+		if seq {
+			m, err := mxj.NewMapXmlSeqReader(er)
+			return mkOutcome(m, err)
+		}
+		m, err := mxj.NewMapXmlReader(er)
+		return mkOutcome(m, err)
+	})
+	switch {
+	case !er.atEnd:
+		return dentry{"DDone", seen[:er.i], o}
+	case end == io.ErrNoProgress:
+		return dentry{"DNoProg", seen, o}
 	}
-	// all of it was read: did the decoder stop by itself or did it meet io.EOF?
-	o2, n2 := directXml(seq, append(append([]byte{}, seen...), "<zz/> "...))
-	if n2 == len(seen) && resText(o2) == resText(o) {
-		return dentry{true, seen, o}
-	}
-	return dentry{false, seen, o}
+	return dentry{"DEof", seen, o}
 }
 
 func coqDents(ds []dentry) string {
 	seen := map[string]bool{}
 	var parts []string
 	for _, d := range ds {
-		k := fmt.Sprint(d.done) + string(d.x)
+		k := d.kind + string(d.x)
 		if seen[k] {
 			continue
 		}
 		seen[k] = true
-		c := "DEof"
-		if d.done {
-			c = "DDone"
-		}
-		parts = append(parts, c+" "+coqStr(string(d.x))+" "+resCoq(d.o))
+		parts = append(parts, d.kind+" "+coqStr(string(d.x))+" "+resCoq(d.o))
 	}
 	return "[" + strings.Join(parts, ";") + "]"
 }
@@ -388,7 +460,8 @@ func xmlTable(fn string, evs []rEv) []dentry {
 		if from > len(us) {
 			from = len(us)
 		}
-		ds = append(ds, xmlEntry(isSeqFn(base), seenFrom(us, from)))
+		sb, end := seenFrom(us, from)
+		ds = append(ds, xmlEntry(isSeqFn(base), sb, end))
 		if sr.pos >= len(us) {
 			break
 		}
@@ -667,16 +740,8 @@ func shapeKey(c c13Case, clause string) string {
 	switch {
 	case c.Mal:
 		return "malformed:" + clause
-	case schedHas(c.Evs, "z"):
-		return "zero-read"
-	case schedHas(c.Evs, "e"):
-		return "data-with-eof"
-	case isJSONFn(c.Fn) && jsonHasTrailingBackslashString(c.Docs):
-		return "json-trailing-escaped-backslash"
 	case isJSONFn(c.Fn) && clause == "raw" && jsonHasOuterBlank(c):
 		return "json-raw-whitespace"
-	case (clause == "handler" || clause == "file") && hasEmptyDoc(c.Fn, c.Docs):
-		return "empty-object-skipped"
 	}
 	return clause
 }
@@ -862,6 +927,12 @@ func runFile(c c13Case) *fileRes {
 // ---------------------------------------------------------------- the property, evaluated on the implementation
 
 func c13Oracle(run *Run, c c13Case, calls []obsCall, hr *handlerRes, fr *fileRes) {
+	if !isJSONFn(c.Fn) && longZeroRun(c.Evs) {
+		// the adaptors under xml.Decoder give up with io.ErrNoProgress after 100 consecutive (0, nil) reads (as bufio does);
+		// such scripts are outside the domain the theorems are stated for (zero_bounded) and only feed the correspondence
+		run.count("oracle-skip:no-progress-script")
+		return
+	}
 	run.sum.OracleEvals++
 	viol := func(clause, what, got, want string) {
 		run.violation(Violation{Key: shapeKey(c, clause), What: what, Input: c, Got: got, Want: want})
@@ -875,9 +946,6 @@ func c13Oracle(run *Run, c c13Case, calls []obsCall, hr *handlerRes, fr *fileRes
 		}
 		if panicked {
 			key := "malformed:panic"
-			if isJSONFn(c.Fn) {
-				key = "lone-closing-brace-panic" // every JSON function except NewMapJsonReader / HandleJsonReader goes through NewMapJsonReaderRaw
-			}
 			run.violation(Violation{Key: key, What: "a reader function panicked on a malformed stream instead of returning an error",
 				Input: c, Got: "panic", Want: "error"})
 		}
@@ -974,7 +1042,9 @@ func c13One(run *Run, c c13Case) {
 	term, impl, calls, hr, fr, bad := c13Term(c, true)
 	run.count("fn:" + c.Fn)
 	cls := "clean"
-	if schedHas(c.Evs, "z") && schedHas(c.Evs, "e") {
+	if longZeroRun(c.Evs) {
+		cls = "run-of-100-zero-reads"
+	} else if schedHas(c.Evs, "z") && schedHas(c.Evs, "e") {
 		cls = "zero+data-with-eof"
 	} else if schedHas(c.Evs, "z") {
 		cls = "zero-reads"
@@ -1127,10 +1197,12 @@ func runC13(cfg runCfg) error {
 		case x < 11:
 		case x < 14:
 			class = 1
-		case x < 18:
+		case x < 17:
 			class = 2
-		default:
+		case x < 19:
 			class = 3
+		default:
+			class = 4
 		}
 		if strings.HasPrefix(c.Fn, "f") {
 			class = 0
